@@ -119,9 +119,14 @@ PROPS["C13"] = {
              "type/sdp/Type/SDP/x are generated in any order, duplicated, missing, and of every JSON type; (text) arbitrary "
              "strings and non-object JSON. Oracle: round trip equality; otherwise a value of one of the four types that "
              "echoes the message's members, or an error; a panic is a violation. Non-trivial = json case carrying both "
-             "members, or a round trip whose SDP needs JSON escaping."),
+             "members, or a round trip whose SDP needs JSON escaping. "
+             "c13_remoteip: SDP text assembled from session/media c= lines and candidate attributes with generated addresses (local, "
+             "boundary, mapped, junk, truncated lines) or arbitrary strings, fed to the proxy's address extraction: no panic; a returned "
+             "address is never local/loopback/unspecified and equals the first remote candidate address. Non-trivial = structured text "
+             "with at least one candidate."),
     "assumptions": [],
-    "units": [U("c13_sessdesc", "ext", "c13", "^TestVerifC13SessDesc$", (8000, 100000))],
+    "units": [U("c13_sessdesc", "ext", "c13", "^TestVerifC13SessDesc$", (8000, 100000)),
+              U("c13_remoteip", "inpkg", "proxy/lib", "^TestVerifC13RemoteIP$", (3000, 40000))],
 }
 META["C13"] = {
     "level": "Sampled exploration over a JSON grammar with deliberate type confusion plus arbitrary strings; oracle = round trip and 'value or error, never panic'; the in-package part covers the proxy's address extraction from SDP text.",
@@ -350,3 +355,29 @@ META["C15"] = {
     "note": "Shutdown liveness is decided as bounded liveness: everything must come to rest once the scripted rendezvous are released; real time is used only as a stall detector with a 12 s budget.",
     "technique": "property-based testing (rapid): stateful operation sequences with scripted gates, invariants after every step; fault injection into the rendezvous",
 }
+
+PROPS["C16"] = {
+    "rule": ("c16_sessions: capacity 1-3 and 1-8 sessions, each with a generated outcome decided by a scripted broker and a real pion "
+             "client in the harness: poll transport error / 500 / malformed / empty / error status / oversized; offer undecodable / "
+             "type-confused / garbage SDP / wrong type; /answer transport error / 'client gone' / 500 / malformed; client never opens "
+             "the data channel (20 s, thorough only); client connects while the relay is unreachable; client connects, exchanges data "
+             "through a harness relay and ends, or stays open to fill capacity. The quick tier drives tokens.get()+runSession directly. "
+             "Oracle after every outcome and quiescence: tokens.count() and the number of tokens taken both equal the harness' model "
+             "of open sessions (each slot released exactly once); polls report a multiple of 8 not above the slots in use; at capacity "
+             "another slot cannot be taken until a session ends, and then can; at the end the count is back to idle. Non-trivial = "
+             ">= 2 different failing exit paths and a success, or a sequence that reaches capacity."),
+    "assumptions": ["real time is used only through the stall rule (budgets of 15 s and more for steps that take milliseconds)",
+                    "the simultaneous data-channel-timeout/open tie cannot be constructed in real time (DESIGN section 8)"],
+    "units": [U("c16_sessions", "inpkg", "proxy/lib", "^TestVerifC16Sessions$", (40, 400), shards=(8, 16), timeout=(400, 3000))],
+}
+META["C16"] = {
+    "level": "Sampled exploration of session-outcome sequences against the real proxy session code with real pion peers and a scripted broker; a model of open sessions is compared with the proxy's slot accounting after every outcome.",
+    "note": "One proxy per test process (package globals); the WebRTC hop is real (loopback/eth0), the broker is a scripted RoundTripper, the relay a local WebSocket echo server.",
+    "technique": "property-based testing (rapid): fault-sequence generation over session exit paths with a reference model of slots in use",
+}
+PROPS["C06"]["units"].append(U("c06_proxy_refuse", "inpkg", "proxy/lib", "^TestVerifC06ProxyRefuse$", (60, 600), shards=(4, 8), timeout=(400, 3000)))
+PROPS["C06"]["rule"] += (" c06_proxy_refuse: a scripted broker hands the real proxy session code relay URLs generated from scheme x host x userinfo tricks x "
+                         "port of a decoy listener x path/fragment noise x unparsable strings, under generated proxy patterns and TLS policy: for a URL "
+                         "whose hostname fails the pattern or whose scheme is not wss without the non-TLS permission, no /answer may be posted, no TCP "
+                         "connection may reach the decoy and the slot must be returned; an acceptable URL must be answered. Non-trivial = a URL whose "
+                         "host passes and scheme fails or vice versa.")
